@@ -287,11 +287,50 @@ def c09_expressions(rng, n_auto):
     return ex
 
 
+def c09_glue_cases(rng, n):
+    """words that are inert by the property's definition (no pattern matches inside the word) but END in the first word of a
+    multi-word alternative of some pattern ('pizza' ends in 'a', as in 'a quarter to'): each is put directly in front of the
+    rest of that alternative (+ a tail that makes it an expression), so a pattern without a leading word boundary would
+    start its match inside the inert word"""
+    _init()
+    C = sys.modules["ctparse.ctparse"]
+    from ctparse.rule import rules as _rules, _regex
+    pairs = set()
+    for name in sorted(_rules):
+        k = 0
+        while True:
+            try:
+                ws = G.L(name, k, limit=6000)
+            except IndexError:
+                break
+            except Exception:
+                ws = []
+            for w in ws:
+                if " " in w:
+                    u, rest = w.split(" ", 1)
+                    if u and rest and u.isalpha():
+                        pairs.add((u, rest))
+            k += 1
+    inert = {}
+    out = []
+    for u, rest in sorted(pairs):
+        for pre in ("pizz", "zq", "Ann"):
+            g = pre + u
+            if g not in inert:
+                inert[g] = not C._match_regex(g, _regex)
+            if inert[g]:
+                for tail in ("", " 8", " eight", " monday"):
+                    out.append((rest + tail, g))
+    return samp(rng, out, n)
+
+
 def sweep_c09(rng, tier):
     import multiprocessing as mp
     ex = c09_expressions(rng, 600 if tier == "thorough" else 120)
     cases = []
     reps = 4 if tier == "thorough" else 2
+    for e, g in c09_glue_cases(rng, 2400 if tier == "thorough" else 300):
+        cases.append((e, (2018, 3, 7, 12, 43, 0), [g], [], rng.random() < 0.5))
     for e, ts in ex:
         for _ in range(reps):
             pre = [rng.choice(INERT) for _ in range(rng.randint(0, 3))]
